@@ -5,6 +5,7 @@
 //! abandoned) and opens a fresh `DiskCache` on the same directory.
 //!
 //! legs:  `disk`  case   = ( cap order ( init ... ) ( thread ... ) ( tid ... ) [ ( key ... ) [ ( i kind m ) ] ] )
+//!                         optional 8th field: the NAME of the cache directory (default `cache`; e.g. `.sccache`)
 //!                         optional ( i kind m ): lock-scope probe — the call stepped at schedule position i is parked
 //!                         at its first utimensat (kind utimes) / unlink (kind unlink) of an entry file and the next m
 //!                         steps are attempted inside that window; they just wait where the call holds the cache lock
@@ -583,7 +584,12 @@ fn run_case(case: &Sx) -> Sx {
     let cap = case.arg(0).u64();
     let pp_first = case.arg(1).u64() != 0;
     let td = tempfile::Builder::new().prefix("vh-c06-").tempdir_in("/dev/shm").unwrap();
-    let root = td.path().join("cache");
+    // the last component of the cache directory is part of the case space (~/.sccache, ./.cache, ...)
+    let root_name = if case.list().len() > 7 && !case.arg(7).bytes().is_empty() { keystr(case.arg(7)) } else { "cache".to_string() };
+    if root_name.contains('/') || root_name == "." || root_name == ".." {
+        return Sx::L(vec![Sx::sym("bad_key")]);
+    }
+    let root = td.path().join(&root_name);
     std::fs::create_dir_all(&root).unwrap();
 
     // shard directories on another file system; declared after `td` so that they are detached before it is removed
